@@ -6,6 +6,8 @@ package diff
 // Syntax: see /verif/DESIGN.md §4.
 
 //@ func CompareIntValues
+//@ requires ifGreaterCode != NoChangeDetected && ifLessCode != NoChangeDetected
+//@ ensures vs_noNone(result)
 //@ props C12 C13 C14
 //@ safety
 //@ modifies nothing
@@ -17,6 +19,8 @@ package diff
 //@ ensures vs_fresh(result)
 
 //@ func CompareFloatValues
+//@ requires ifGreaterCode != NoChangeDetected && ifLessCode != NoChangeDetected
+//@ ensures vs_noNone(result)
 //@ props C12 C13 C14
 //@ safety
 //@ modifies nothing
@@ -28,6 +32,7 @@ package diff
 //@ ensures vs_fresh(result)
 
 //@ func CheckToFromRequired
+//@ ensures vs_noNone(diffs)
 //@ props C12 C13 C14
 //@ safety
 //@ modifies nothing
@@ -36,6 +41,7 @@ package diff
 //@ ensures required1 && !required2 ==> len(diffs) == 1 && diffs[0].Change == ChangedRequiredToOptional
 
 //@ func addTypeDiff
+//@ ensures vs_noNone(diffs) ==> vs_noNone(result)
 //@ props C12 C13 C14
 //@ safety
 //@ modifies nothing
@@ -44,6 +50,7 @@ package diff
 //@ ensures diff.Change != NoChangeDetected ==> vs_all(func(i int) bool { return 0 <= i && i < len(diffs) ==> result[i] == diffs[i] })
 
 //@ func getTypeHierarchyChange
+//@ ensures result.Change != NoChangeDetected
 //@ props C13 C14
 //@ safety
 //@ modifies nothing
@@ -55,6 +62,7 @@ package diff
 //@ ensures isStringType(type1) == isStringType(type2) && !(vs_numeric(type1) && vs_numeric(type2)) ==> result.Change == ChangedType
 
 //@ func checkNumericTypeChanges
+//@ ensures vs_noNone(diffs) ==> vs_noNone(result)
 //@ props C12 C13 C14
 //@ safety
 //@ modifies nothing
@@ -70,6 +78,7 @@ package diff
 //@ ensures vs_sameExclusive(type1, type2) && vs_sameFloat(type1.Maximum, type2.Maximum) && vs_sameFloat(type1.Minimum, type2.Minimum) ==> len(result) == len(diffs)
 
 //@ func CheckStringTypeChanges
+//@ ensures vs_noNone(diffs) ==> vs_noNone(result)
 //@ props C12 C13 C14
 //@ safety
 //@ modifies nothing
@@ -85,6 +94,7 @@ package diff
 //@ func CompareEnums
 //@ props C12 C13 C14
 //@ trusted
+//@ ensures vs_noNone(result)
 //@ modifies nothing
 //@ ensures len(result) <= 2 && vs_fresh(result)
 //@ ensures vs_all(func(i int) bool { return 0 <= i && i < len(result) ==> result[i].Change == AddedEnumValue || result[i].Change == DeletedEnumValue })
@@ -133,6 +143,7 @@ package diff
 //@ loop 2 invariant vs_globalinv_codeTable()
 
 //@ func CheckToFromPrimitiveType
+//@ ensures vs_noNone(diffs) ==> vs_noNone(result)
 //@ props C12 C13 C14
 //@ modifies nothing
 //@ ensures vs_extends(diffs, result) && len(result) <= len(diffs)+1
@@ -140,6 +151,7 @@ package diff
 //@ ensures isPrimitive(type1) != isPrimitive(type2) ==> len(result) == len(diffs)+1 && result[len(diffs)].Change == ChangedType
 
 //@ func CheckRefChange
+//@ ensures vs_noNone(diffs) ==> vs_noNone(diffReturn)
 //@ props C12 C13 C14
 //@ modifies nothing
 //@ ensures vs_extends(diffs, diffReturn) && len(diffReturn) <= len(diffs)+1
@@ -149,6 +161,7 @@ package diff
 //@ ensures isRefType(type1) && isRefType(type2) && definitionFromRef(getRef(type1)) == definitionFromRef(getRef(type2)) ==> vs_same(diffReturn, diffs)
 
 //@ func (*SpecAnalyser).CompareProps
+//@ ensures vs_noNone(result)
 //@ props C12 C13 C14
 //@ modifies nothing
 //@ requires type1 != nil && type2 != nil
@@ -193,3 +206,15 @@ package diff
 //@ ensures desc1 == "" && desc2 != "" ==> sd.Diffs[old(len(sd.Diffs))].Code == AddedDescripton
 //@ ensures desc1 != "" && desc2 == "" ==> sd.Diffs[old(len(sd.Diffs))].Code == DeletedDescripton
 //@ ensures @C14 desc1 != "" && desc2 != "" && desc1 != desc2 ==> sd.Diffs[old(len(sd.Diffs))].Code == ChangedDescripton
+
+//@ func (*SpecAnalyser).addDiffs
+//@ props C12 C13 C14
+//@ safety
+//@ modifies &sd.Diffs
+//@ requires sd != nil && vs_noNone(diffs)
+//@ ensures len(sd.Diffs) == old(len(sd.Diffs))+len(diffs)
+//@ ensures vs_all(func(i int) bool { return 0 <= i && i < old(len(sd.Diffs)) ==> sd.Diffs[i] == old(sd.Diffs[i]) })
+//@ ensures vs_all(func(k int) bool { return 0 <= k && k < len(diffs) ==> sd.Diffs[old(len(sd.Diffs))+k].Code == diffs[k].Change && sd.Diffs[old(len(sd.Diffs))+k].DifferenceLocation == location && sd.Diffs[old(len(sd.Diffs))+k].Compatibility == getCompatibilityForChange(diffs[k].Change, vs_context(location)) })
+//@ loop 1 invariant sd != nil && len(sd.Diffs) == old(len(sd.Diffs))+vs_done(1)
+//@ loop 1 invariant vs_all(func(i int) bool { return 0 <= i && i < old(len(sd.Diffs)) ==> sd.Diffs[i] == old(sd.Diffs[i]) })
+//@ loop 1 invariant vs_all(func(k int) bool { return 0 <= k && k < vs_done(1) ==> sd.Diffs[old(len(sd.Diffs))+k].Code == diffs[k].Change && sd.Diffs[old(len(sd.Diffs))+k].DifferenceLocation == location && sd.Diffs[old(len(sd.Diffs))+k].Compatibility == getCompatibilityForChange(diffs[k].Change, vs_context(location)) })
